@@ -47,6 +47,11 @@ CONTROLS = {
     "Zip": [("Zip.mc.cfg", {"Bug": '"no_fanout"'}, "ContractHolds"),
             ("Zip.mc.cfg", {"Bug": '"slot_shift"'}, "ContractHolds"),
             ("Zip.mc2.cfg", {"AsShipped_D12": "TRUE"}, "ContractHolds")],
+    "FutureChain": [("FutureChain.d16.cfg", {}, "NoDeadlock"),
+                    ("FutureChain.mc2.cfg", {"Bug": '"callbacks_under_lock"'}, "NoDeadlock"),
+                    ("FutureChain.mc2.cfg", {"Bug": '"done_check_outside_lock"'}, "ContractHolds"),
+                    ("FutureChain.mc2.cfg", {"AsShipped_D3": "TRUE"}, "ContractHolds"),
+                    ("FutureChain.mc.cfg", {"AsShipped_D15": "TRUE"}, "ContractHolds")],
     "LockProg": [("LockProg.cos_asshipped.cfg", {}, "Deadlock"), ("LockProg.d14.cfg", {}, "Deadlock")],
 }
 
